@@ -13,6 +13,7 @@ NOT_YET = {
     "C16": ["PFOR, group, Elias, BP128, adaptive, float metadata: monitors + correspondence only so far"],
     "C05": [],
     "C11": [],
+    "C06": ["losslessness of the PFOR, DICT and BITMAP arms (their codecs have no round-trip theorem yet) and hence the unconditional adaptive_roundtrip; analysis facts (isSorted/uniqueCount describe the list) linking select_bitmap_domain to the input list"],
     "C07": ["array-level framing round trip (decode (encode ds) = map roundTripOne ds) is not a theorem: encode bytes are compared with the model and the decoded values are checked on the implementation"],
     "C10": ["bit cells (set/clear/toggle) as theorems: model + monitors + correspondence only; half-float cells not covered (F16C-only code)"],
     "C08": ["set algebra (or/and/xor/andnot), add-range fast path (single run on an empty set), clone and serialise/deserialise, ascending duplicate-free iteration (`members`) as theorems; the three containers are abstracted to one bit set in the model (their equivalence with the C is sampled by the histories)"],
